@@ -203,12 +203,12 @@ type handCtx struct {
 	dl   time.Time
 }
 
-func newHandCtx() *handCtx                            { return &handCtx{done: make(chan struct{}), vals: map[any]any{}} }
-func (c *handCtx) Deadline() (time.Time, bool)        { return c.dl, !c.dl.IsZero() }
-func (c *handCtx) Done() <-chan struct{}              { return c.done }
-func (c *handCtx) Err() error                         { return c.err }
-func (c *handCtx) Value(k any) any                    { return c.vals[k] }
-func (c *handCtx) cancel()                            { c.err = context.Canceled; close(c.done) }
+func newHandCtx() *handCtx                     { return &handCtx{done: make(chan struct{}), vals: map[any]any{}} }
+func (c *handCtx) Deadline() (time.Time, bool) { return c.dl, !c.dl.IsZero() }
+func (c *handCtx) Done() <-chan struct{}       { return c.done }
+func (c *handCtx) Err() error                  { return c.err }
+func (c *handCtx) Value(k any) any             { return c.vals[k] }
+func (c *handCtx) cancel()                     { c.err = context.Canceled; close(c.done) }
 
 // foreignContextCancel: a stream (or unary call) made under a hand-written context; that
 // context ends. The usual clauses of a cancellation apply: operations fail, a reset reaches the
